@@ -280,6 +280,8 @@ def _run(ctx):
                   'completes with SKIPPED and follows on-skip', 'GD')
     from mstatic.rules import shared as _shd
     _shd.upstream_states_are_completed_states(ctx, r4)
+    from mstatic.rules import c04 as _c04
+    _c04.reverse_rules(ctx, r4)
     ra = prog.func(RT + '._reset_actions')
     cfg = ctx.cfg(ra)
     sel = [n for n in own_nodes(ra.node) if isinstance(n, ast.ListComp)]
